@@ -2,6 +2,7 @@ package main
 
 import (
 	"bytes"
+	"time"
 	"os/exec"
 	"path/filepath"
 	"encoding/json"
@@ -149,6 +150,14 @@ func (b *builder) build(x *xExpr) carapace.Action {
 		return carapace.ActionCobra(func(cmd *cobra.Command, args []string, toComplete string) ([]string, cobra.ShellCompDirective) {
 			return persistent, cobra.ShellCompDirectiveFilterFileExt
 		})
+	case "timedEcho":
+		// answers `<value>-done`, slowly when the value starts with `slow`; under a Timeout that the slow answers miss
+		return carapace.ActionCallback(func(c carapace.Context) carapace.Action {
+			if strings.HasPrefix(c.Value, "slow") {
+				time.Sleep(250 * time.Millisecond)
+			}
+			return carapace.ActionValues(c.Value + "-done")
+		}).Timeout(100*time.Millisecond, carapace.ActionValues("alt"))
 	case "lsfiles":
 		// files styled by the LS_COLORS of the Context the action runs under; a callback may set the variable first
 		ls := x.S
@@ -379,8 +388,9 @@ func runInvoke(raw json.RawMessage) interface{} {
 // ---- op "history": shared Go values invoked repeatedly and interleaved (C08)
 
 type historyStep struct {
-	E   int  `json:"e"`
-	Ctx xCtx `json:"ctx"`
+	E     int  `json:"e"`
+	Ctx   xCtx `json:"ctx"`
+	Pause int  `json:"pause,omitempty"` // milliseconds to wait before this step (timed expressions)
 }
 
 type historyIn struct {
@@ -389,7 +399,40 @@ type historyIn struct {
 	CI    bool          `json:"ci"`
 }
 
+// runHistory: timed expressions are re-run when the machine stalled (a quick answer that missed its 100 ms budget)
 func runHistory(raw json.RawMessage) interface{} {
+	var in historyIn
+	must(json.Unmarshal(raw, &in))
+	timed := false
+	for _, x := range in.Table {
+		if x.K == "timedEcho" {
+			timed = true
+		}
+	}
+	var out interface{}
+	for attempt := 0; attempt < 4; attempt++ {
+		out = runHistoryOnce(raw)
+		if !timed {
+			break
+		}
+		stalled := false
+		m := out.(map[string]interface{})
+		for _, key := range []string{"results", "fresh"} {
+			for i, r := range m[key].([]xResult) {
+				quick := !strings.HasPrefix(in.Steps[i].Ctx.Value, "slow")
+				if quick && len(r.Values) == 1 && r.Values[0].Value == "alt" {
+					stalled = true
+				}
+			}
+		}
+		if !stalled {
+			break
+		}
+	}
+	return out
+}
+
+func runHistoryOnce(raw json.RawMessage) interface{} {
 	var in historyIn
 	must(json.Unmarshal(raw, &in))
 	carapace.VerifSetMatch(in.CI)
@@ -410,6 +453,9 @@ func runHistory(raw json.RawMessage) interface{} {
 		}
 	}
 	for i, s := range in.Steps {
+		if s.Pause > 0 {
+			time.Sleep(time.Duration(s.Pause) * time.Millisecond)
+		}
 		c := s.Ctx.toContext()
 		before := fmt.Sprintf("%q|%q|%q|%q|%q", c.Value, c.Args, c.Parts, c.Env, c.Dir)
 		results = append(results, invokeSafe(b.table[s.E], c))
@@ -834,6 +880,16 @@ func genHistory(r *rng, tier string) interface{} {
 		for i := range ctxs {
 			ctxs[i].Env = []string{"OTHER=1", "VERIF_X=outer"}
 		}
+	}
+	if r.intn(500) == 0 {
+		// one Action value under a Timeout, invoked again after an invocation that missed the budget has finished in
+		// the background: the later answer is the later invocation's own
+		in.Table = []*xExpr{{K: "timedEcho", Opaque: true}}
+		in.Steps = []historyStep{{E: 0, Ctx: xCtx{Value: "slow1"}}, {E: 0, Ctx: xCtx{Value: pick(r, []string{"quick2", "q"})}, Pause: 350}, {E: 0, Ctx: xCtx{Value: "quick3"}}}
+		if r.chance(50) {
+			in.Steps = append([]historyStep{{E: 0, Ctx: xCtx{Value: "quick0"}}}, in.Steps...)
+		}
+		return in
 	}
 	if r.chance(3) {
 		// files under Contexts whose LS_COLORS differ (set by the caller, or by a callback on its own copy): the style of a
